@@ -162,15 +162,21 @@ Section Render.
   Definition render (t : expr) : list item := wrapi 0 [] t (pr [] t).
 End Render.
 
-(* renderings under the specification table *)
-Definition spec_bprec (o : binop) : nat := level_of spec_level (binop_rule o).
+(* renderings under the specification table.  Only the ORDER of the levels matters to `pr` (every
+   decision is a comparison of two levels); the levels are numbered n |-> 10 n + 10 (pest's
+   PREC_STEP numbering of the same table) so that the statement of the round trip needs no
+   renumbering lemma. *)
+Definition pest_scale (n : nat) : nat := 10 * n + 10.
+Definition spec_bprec (o : binop) : nat := pest_scale (level_of spec_level (binop_rule o)).
 Definition spec_rassoc (o : binop) : bool := rassoc_of spec_level (binop_rule o).
-Definition spec_Ppre : nat := level_of spec_level R_negation.
-Definition spec_Pfact : nat := level_of spec_level R_factorial.
-Definition spec_Ppost : nat := level_of spec_level R_call_list.
+Definition spec_Ppre : nat := pest_scale (level_of spec_level R_negation).
+Definition spec_Pfact : nat := pest_scale (level_of spec_level R_factorial).
+Definition spec_Ppost : nat := pest_scale (level_of spec_level R_call_list).
 
 Definition spec_render := render spec_bprec spec_rassoc spec_Ppre spec_Pfact spec_Ppost.
+(* minimally parenthesised: no redundant layer; symbol spelling of `not` *)
 Definition flat_min (t : expr) : list item := spec_render (fun _ => 0) (fun _ => false) t.
+(* fully parenthesised: one layer around every operand, nested expression and the whole *)
 Definition flat_full (t : expr) : list item := spec_render (fun _ => 1) (fun _ => false) t.
 
 (* oracles given as finite maps (what the check driver sends) *)
